@@ -75,8 +75,11 @@ _public_ int m_list_itr_next(m_list_itr_t **itr) {
     m_list_itr_t *i = *itr;
     if (*i->elem) {
         if (i->diff >= 0) {
-            i->elem = &((*i->elem)->next);
-        } 
+            /* Skip the nodes inserted before the current one through the iterator, then the current one */
+            for (ssize_t n = 0; n <= i->diff && *i->elem; n++) {
+                i->elem = &((*i->elem)->next);
+            }
+        }
         i->diff = 0;
     }
     if (!*(i->elem)) {
